@@ -14,10 +14,29 @@
 (*   - the value of a key is the number of DISTINCT report IDs that carry   *)
 (*     a configured bucket of that key; NumReports is the number of         *)
 (*     reports read.                                                        *)
-EXTENDS Integers, Sequences, FiniteSets
+(*   - the data points of a chart are listed in the documented total order *)
+(*     of its keys (program versions: semver precedence, ties and non-      *)
+(*     versions lexically; Go versions: by version; everything else:        *)
+(*     lexically); the configuration abstraction carries that order as a    *)
+(*     rank per key, so the listing is a function of the configuration and  *)
+(*     never of storage or map iteration order.                             *)
+EXTENDS Integers, Sequences, FiniteSets, TLC, SequencesExt
 
-(* A chart descriptor is [p |-> program, c |-> chart, bk |-> set of <<bucket, key>>] *)
+(* A chart descriptor is [p |-> program, c |-> chart, bk |-> set of <<bucket, key, rank>>] *)
+(* rank: position of the key in the documented order of the chart's keys    *)
 Keys(ch) == {pr[2] : pr \in ch.bk}
+Rank(ch, k) == (CHOOSE pr \in ch.bk : pr[2] = k)[3]
+
+(* the order in which the keys of a chart are listed: declaratively, key k  *)
+(* stands at position 1 + number of keys of smaller rank                    *)
+OrderOf(ch) == [i \in 1..Cardinality(Keys(ch)) |->
+                   CHOOSE k \in Keys(ch) : Cardinality({k2 \in Keys(ch) : Rank(ch, k2) < Rank(ch, k)}) = i - 1]
+(* ... and operationally, by sorting whatever order the keys come in        *)
+SortedKeys(ch) == SortSeq(SetToSeq(Keys(ch)), LAMBDA a, b : Rank(ch, a) < Rank(ch, b))
+PCs(charts) == {<<ch.p, ch.c>> : ch \in charts}
+(* the listing order of every chart: a function of the configuration alone *)
+ListingOrder(charts) == [pc \in PCs(charts) |-> OrderOf(CHOOSE ch \in charts : ch.p = pc[1] /\ ch.c = pc[2])]
+SortedOrder(charts) == [pc \in PCs(charts) |-> SortedKeys(CHOOSE ch \in charts : ch.p = pc[1] /\ ch.c = pc[2])]
 
 (* report shape r: [id |-> ..., carries |-> set of <<p, c, b>>] (other fields ignored) *)
 Carries(r, ch, key) == \E pr \in ch.bk : pr[2] = key /\ <<ch.p, ch.c, pr[1]>> \in r.carries
@@ -49,5 +68,7 @@ ChartFold(lines, charts) ==
     IN [num |-> Len(lines), val |-> [t \in Triples(charts) |-> part(ChOf(charts, t), t[3])]]
 
 (* no two descriptors for the same (program, chart): the domain of the check *)
-WellFormed(charts) == \A a, b \in charts : (a.p = b.p /\ a.c = b.c) => a = b
+(* and the ranks of a chart order its keys totally                          *)
+WellFormed(charts) == /\ \A a, b \in charts : (a.p = b.p /\ a.c = b.c) => a = b
+                      /\ \A ch \in charts : \A x, y \in ch.bk : (x[2] = y[2]) <=> (x[3] = y[3])
 =============================================================================
